@@ -86,6 +86,14 @@ def conn_events(k: int, kind: str) -> tuple:
         return {"carrier": "h2", "tls": True, "alpn": "h2"}, \
             [("cmd", k, "preface"), ("cmd", k, "headers", 1, h2_request_headers(b"GET", p + b"h2"), True)], \
             {"http:" + (p + b"h2").decode(): [("recv_body",), ("gate", "g%d" % k)] + OK[1:]}
+    if kind == "h2two":
+        # two streams of ONE connection in progress at the trigger, finishing at different moments of the grace period
+        # (gates g<k> and h<k>): the first one to finish must not take the other one's response with it
+        return {"carrier": "h2", "tls": True, "alpn": "h2"}, \
+            [("cmd", k, "preface"), ("cmd", k, "headers", 1, h2_request_headers(b"GET", p + b"h2"), True),
+             ("cmd", k, "headers", 3, h2_request_headers(b"GET", p + b"h2b"), True)], \
+            {"http:" + (p + b"h2").decode(): [("recv_body",), ("gate", "g%d" % k)] + OK[1:],
+             "http:" + (p + b"h2b").decode(): [("recv_body",), ("gate", "h%d" % k)] + OK[1:]}
     if kind == "h2idle":
         return {"carrier": "h2", "tls": True, "alpn": "h2"}, \
             [("cmd", k, "preface"), ("cmd", k, "headers", 1, h2_request_headers(b"GET", p + b"h2d"), True)], \
@@ -107,6 +115,7 @@ def scenarios(tier: str) -> List[Any]:
     else:
         multis += [("stuck", "stuck", "stuck"), ("idle", "short", "stuck")]
     for engine in ("asyncio", "trio"):
+        out.append((engine, "callable", ("h2two",), "none"))
         for trig in ("callable", "max_requests"):
             for ms in multis:
                 for late in LATE:
@@ -144,6 +153,10 @@ def build(params: Any) -> tuple:
         sources.append((f"c{k}", [("connect", k, opts)] + evs))
         if kind in ("short", "h2open", "stream"):
             releases.append(("release", "g%d" % k))
+        if kind == "h2two":
+            sources.append((f"rel{k}a", [("release", "g%d" % k)]))
+            sources.append((f"rel{k}b", [("release", "h%d" % k)]))
+            n_requests += 1
         if kind not in ("partial",):
             n_requests += 1
     cfg = {"keep_alive_timeout": 50, "graceful_timeout": grace, "shutdown_timeout": SHUT}
@@ -257,6 +270,17 @@ def oracle(w: Any, params: Any) -> List[dict]:
             # instant the shutdown may not have reached the connection yet and it is closed as an idle one)
             if inst is not None and inst.seq <= ti < rel_idx and t_rel > t0 and st is not None and st["ended"] and cl.h2.goaway is None:
                 out.append(V("no-goaway", kind, f"{tag}: conn {k} closed at {rec.closed_at} without GOAWAY"))
+        if kind == "h2two":
+            for sid, gate, path in ((1, "g%d" % k, "/k%dh2" % k), (3, "h%d" % k, "/k%dh2b" % k)):
+                t_r = next((t for t, e in fired if e == ("release", gate)), None)
+                inst = next((i for i in w.instances if i.scope.get("path", "") == path), None)
+                if t_r is None or t_r >= t0 + grace or inst is None or inst.seq > ti or cl.h2 is None:
+                    continue
+                st = cl.h2.streams.get(sid)
+                ok = st is not None and st["ended"] == 1 and st["body"] == b"ok" and st["status"] == 200
+                if not ok and (w.serve_result is not None or not ticks_left):
+                    out.append(V("in-grace-request-truncated", f"{engine}:h2two:stream{sid}",
+                                 f"{tag}: conn {k} stream {sid} released at {t_r}, t0={t0}: {st}"))
         if kind == "stream":
             nxt = next((i for i in w.instances if i.scope.get("path", "") == "/k%dnext" % k), None)
             first = next((i for i in w.instances if i.scope.get("path", "") == "/k%dstream" % k), None)
